@@ -144,12 +144,12 @@ def make_context(v: str, kind: str, parser=None):
     ns = dict(G.NAMESPACES)
     if v >= '3.0' and parser is not None:
         try:
-            var['f'] = parser.parse('function($x) { $x + 1 }').evaluate(XPathContext(docs['et']))
+            var['fn1'] = parser.parse('function($x) { $x + 1 }').evaluate(XPathContext(docs['et']))
             if v >= '3.1':
                 c0 = XPathContext(docs['et'])
-                var['m'] = parser.parse("map{'a': 1, 2: 'b'}").evaluate(c0)
-                var['arr'] = parser.parse("[1, (2, 3), 'x']").evaluate(c0)
-        except Exception:   # the context just lacks $f/$m/$arr then
+                var['map1'] = parser.parse("map{'a': 1, 2: 'b'}").evaluate(c0)
+                var['arr1'] = parser.parse("[1, (2, 3), 'x']").evaluate(c0)
+        except Exception:   # the context just lacks $fn1/$map1/$arr1 then
             pass
     if kind == 'doc':
         return XPathContext(docs['et'], namespaces=ns, variables=var)
@@ -223,6 +223,11 @@ def worker_main() -> None:
     import warnings
     warnings.simplefilter('ignore')
     sys.setrecursionlimit(1000)
+    try:   # a runaway allocation (e.g. `1 to 2147483648`) must fail fast instead of exhausting the host
+        import resource
+        resource.setrlimit(resource.RLIMIT_AS, (3 << 30, 3 << 30))
+    except Exception:   # noqa
+        pass
     devnull = open(os.devnull, 'w')
     out = os.fdopen(os.dup(1), 'w')
     os.dup2(devnull.fileno(), 1)          # fn:trace and friends print to stdout
@@ -263,7 +268,14 @@ class Worker:
             self.start()
             what = 'ERR:OTHER:Hang' if died is None else f'ERR:OTHER:ProcessDied({died})'
             return dict(req, steps=[('call', what, 'worker')])
-        return json.loads(line)
+        res = json.loads(line)
+        if any(st[2].startswith('collations.py') or st[1] == 'ERR:OTHER:Hang' for st in res['steps']):
+            # an escape inside the collation manager can leave the process-global collation lock held
+            # (C19): later calls would hang for reasons unrelated to their input -> fresh process
+            self.p.kill()
+            self.p.wait()
+            self.start()
+        return res
 
     def close(self):
         try:
@@ -495,3 +507,676 @@ def translate_tables(run: Run) -> dict:
     if not gen.exists() or gen.read_text() != text:
         gen.write_text(text)
     return info
+
+
+# --------------------------------------------------------------------------------------
+# protocol helpers
+# --------------------------------------------------------------------------------------
+def enc(s: str) -> str:
+    return '.'.join(str(ord(c)) for c in s) if s else '_'
+
+
+def h8(s: str) -> str:
+    import hashlib
+    return hashlib.blake2b(s.encode('utf-8', 'surrogatepass'), digest_size=5).hexdigest()
+
+
+def in_process_guard(fn):
+    """guarded() for calls made in the main process (histories, lexer, taxonomy)"""
+    return guarded(fn)
+
+
+# --------------------------------------------------------------------------------------
+# (a) parser reuse: histories on ONE instance
+# --------------------------------------------------------------------------------------
+NONSTR = [None, 5, b'ab', ['a']]
+
+HISTORY_CORPUS = [
+    ('3.1', ['abs(-1)', '1 => (', 'abs(-1)']),                       # F03c
+    ('3.1', ["'a' => concat(", "xs:int('1')", '1 => f(', 'count((1, 2))']),
+    ('3.0', ['1 +', '2 * 3', '(', 'a/b']),
+    ('2.0', ['(: open', '1', 'empty-sequence() and lt', '1 to 3', None, 'a']),
+    ('1.0', ['a[', 'a[1]', "'unterminated", '//b', 5, '//b', '1' * 4400, '2']),
+    ('2.0', ['1 + "a"', '1 + 1', 'xs:int("x")', 'xs:int("1")', b'ab', None, 'b']),
+    ('3.1', ['map{', 'map{1:2}', '[1', '[1]', 'Q{', 'Q{u}a', '1 => abs(', 'abs(1)']),
+]
+
+
+def outcome_text(out: str, val, exc_msg: str | None) -> str:
+    if out == 'ok':
+        try:
+            return 'ok-' + h8(val.tree)
+        except BaseException as e:   # noqa
+            return 'ok-treeERR-' + type(e).__name__
+    return out.replace(':', '-') + ('-' + h8(exc_msg) if exc_msg is not None else '')
+
+
+def parse_observed(p, src):
+    """(canonical outcome, token or None) of p.parse(src); the message is part of the outcome"""
+    from elementpath import ElementPathError
+    holder = {}
+
+    def call():
+        try:
+            return p.parse(src)
+        except ElementPathError as e:
+            holder['msg'] = str(e.message)
+            raise
+
+    out, _site, tok = in_process_guard(call)
+    return outcome_text(out, tok, holder.get('msg')), tok
+
+
+def cursor_text(p) -> str:
+    rem = list(p.tokens)
+    p.tokens = iter(rem)
+    t = '(start)' if p.token is p._start_token else 'tok-' + str(p.token.symbol)
+    nt = '(start)' if p.next_token is p._start_token else 'tok-' + str(p.next_token.symbol)
+    src = p.source if isinstance(p.source, str) else '?'
+    return (f'src={enc(src)},tokens={len(rem)},nm={0 if p.next_match is None else 1},t={t},nt={nt},'
+            f'pa={1 if getattr(p, "parse_arguments", True) else 0}')
+
+
+def gen_history(rng, v: str, g: 'G.Gen', tokenizer, symbols) -> list:
+    n = rng.randint(2, 12)
+    calls: list = []
+    for _ in range(n):
+        r = rng.random()
+        if r < 0.30:
+            s = g.expr(rng.randint(0, 2))
+        elif r < 0.60:
+            s, _k = G.mutate(rng, tokenizer, symbols, g.expr(rng.randint(0, 2)))
+        elif r < 0.70:
+            s = rng.choice(G.KNOWN_NASTIES)
+            if len(s) > 200:
+                s = s[:40]
+        elif r < 0.78:
+            s = rng.choice(['1 => (', "'a' => concat(", '1 => f(', '1 => abs(', '(1, 2) => count() => (',
+                            '1 => fn:abs(', '$f => (', '1 => Q{', "1 => xs:int('", '1 => $'])
+        elif r < 0.84:
+            s = rng.choice(NONSTR)
+        elif r < 0.92 and calls:
+            s = rng.choice(calls)
+        else:
+            s = G.illtyped_call(g)
+        if isinstance(s, str):   # lone surrogates are not Lean `Char`s (the driver could not echo `source`)
+            s = ''.join(c for c in s if not 0xD800 <= ord(c) < 0xE000)
+        calls.append(s)
+    return calls
+
+
+def history_line(v: str, calls: list):
+    """runs the history on ONE instance and each call on a fresh one; returns (protocol line, impl text)"""
+    p = new_parser(v)
+    impl_parts, proto_parts = [], []
+    for src in calls:
+        fresh = new_parser(v)
+        f_out, _ = parse_observed(fresh, src)
+        i_out, _ = parse_observed(p, src)
+        impl_parts.append(f'{i_out}#{cursor_text(p)}')
+        if isinstance(src, str):
+            proto_parts.append(f'S:{enc(src)}:{f_out}')
+        else:
+            proto_parts.append(f'O:{NONSTR.index(src)}:{f_out}')
+    return 'H ' + '|'.join(proto_parts), '|'.join(impl_parts)
+
+
+def canon_value(val) -> str:
+    def one(x):
+        if isinstance(x, float):
+            return 'f:' + x.hex()
+        if isinstance(x, (list, tuple)):
+            return '[' + ','.join(one(y) for y in x) + ']'
+        name = type(x).__name__
+        if hasattr(x, 'position') and hasattr(x, 'parent'):
+            return f'{name}@{x.position}'
+        try:
+            import re as _re
+            return f'{name}:' + _re.sub(r' at 0x[0-9a-f]+', '', str(x))
+        except Exception:   # noqa
+            return name
+    try:
+        return one(consume(val))[:300]
+    except BaseException as e:   # noqa
+        return 'ERR-in-canon-' + type(e).__name__
+
+
+def eval_reuse_case(v: str, src: str):
+    """evaluate after a failed evaluate on the same token == evaluate on a fresh token"""
+    p = new_parser(v)
+    out, _s, tok = in_process_guard(lambda: p.parse(src))
+    if out != 'ok':
+        return None
+    out2, _s, tok2 = in_process_guard(lambda: new_parser(v).parse(src))
+    if out2 != 'ok':
+        return None
+    from copy import copy
+    good = make_context(v, 'doc', p)
+    res = []
+    for bad_kind in ('none', 'atom', 'noroot'):
+        bad = None if bad_kind == 'none' else make_context(v, bad_kind, p)
+        o_bad, _s, _v = in_process_guard(lambda: consume(tok.evaluate(copy(bad) if bad is not None else None)))
+        o1, _s, v1 = in_process_guard(lambda: consume(tok.evaluate(copy(good))))
+        o2, _s, v2 = in_process_guard(lambda: consume(tok2.evaluate(copy(good))))
+        res.append((bad_kind, o_bad, o1 + '/' + (canon_value(v1) if o1 == 'ok' else ''),
+                    o2 + '/' + (canon_value(v2) if o2 == 'ok' else '')))
+    return res
+
+
+def correspond_histories(run: Run, n: int) -> None:
+    rng = run.rng
+    ft = {v: G.function_table(v, parser_class(v)) for v in VERSIONS}
+    lines, impls, cases = [], [], []
+    todo = list(HISTORY_CORPUS)
+    for _ in range(n):
+        v = rng.choice(VERSIONS)
+        p0 = new_parser(v)
+        syms = [k for k in parser_class(v).symbol_table if not k.startswith('(') or k == '(:']
+        g = G.Gen(rng, v, ft[v])
+        todo.append((v, gen_history(rng, v, g, p0.tokenizer, syms)))
+    for v, calls in todo:
+        line, impl = history_line(v, calls)
+        lines.append(line)
+        impls.append(impl)
+        cases.append({'kind': 'history', 'v': v, 'calls': [c if isinstance(c, str) else f'<non-str {NONSTR.index(c)}>'
+                                                            for c in calls]})
+    answers = run.driver('C03', lines)
+    st = run.stats
+    for case, impl, ans in zip(cases, impls, answers):
+        if not ans.startswith('model='):
+            run.disagree(Disagreement(case, 'driver:' + ans, what='protocol'))
+            continue
+        model, spec = ans[len('model='):].split(' spec=')
+        fails = impl.count('ERR-')
+        st.case(case, nontrivial=0 < fails < len(case['calls']))
+        st.count(f'history:len={len(case["calls"])//4*4}+')
+        st.count('history:calls', len(case['calls']))
+        st.count('history:failing-calls', fails)
+        if 'ERR-OTHER' in impl:
+            st.count('history:with-non-ElementPathError')
+        if impl != spec:
+            # first call at which the reused instance differs from a fresh one
+            k = next((i for i, (a, b) in enumerate(zip(impl.split('|'), spec.split('|'))) if a != b), 0)
+            run.disagree(Disagreement(dict(case, first_difference_at_call=k), impl.split('|')[k],
+                                      model.split('|')[k] if k < len(model.split('|')) else None,
+                                      spec.split('|')[k], what='parser-reuse', site='Parser.parse'))
+        elif impl != model:
+            run.disagree(Disagreement(case, impl, model, what='parser-reuse-model'))
+    # evaluate after failed evaluate on the same token
+    for _ in range(max(20, n // 4)):
+        v = rng.choice(VERSIONS)
+        g = G.Gen(rng, v, ft[v])
+        src = g.expr(rng.randint(0, 2)) if rng.random() < 0.6 else G.illtyped_call(g)
+        r = eval_reuse_case(v, src)
+        if r is None:
+            continue
+        st.count('eval-reuse:tokens')
+        for bad_kind, o_bad, reused, fresh in r:
+            st.case({'kind': 'eval-reuse', 'v': v, 's': src, 'bad': bad_kind}, nontrivial=o_bad != 'ok')
+            if o_bad != 'ok':
+                st.count('eval-reuse:after-failed-evaluate')
+            if reused != fresh:
+                run.disagree(Disagreement({'kind': 'eval-reuse', 'v': v, 's': src, 'bad_context': bad_kind},
+                                          reused, None, fresh, what='evaluate-after-failed-evaluate',
+                                          site='XPathToken.evaluate'))
+
+
+# --------------------------------------------------------------------------------------
+# (b) lexer: real Parser.advance vs Lean model on the real tokenizer's matches
+# --------------------------------------------------------------------------------------
+def lexer_case(v: str, src: str):
+    import elementpath.tdop as tdop
+    from elementpath import ElementPathError
+    p = new_parser(v)
+    matches = list(p.tokenizer.finditer(src))
+    parts = []
+    for m in matches:
+        lit, sym, name, unk = m.groups()
+        if sym is not None:
+            parts.append(('s1' if p.name_pattern.match(sym) is not None else 's0') + ':' + enc(sym))
+        elif lit is not None:
+            parts.append('l0:' + enc(lit))
+        elif name is not None:
+            parts.append('n0:' + enc(name))
+        elif unk is not None:
+            parts.append('u0:' + enc(unk))
+        else:
+            parts.append('w0:' + enc(m.group()))
+    line = f'L v={v} m=' + ';'.join(parts)
+    p.source = src
+    p.tokens = iter(matches)
+    syms, err = [], '-'
+    registered = True
+    for _ in range(len(matches) + 2):
+        try:
+            out, _site, _v = in_process_guard(lambda: tdop.Parser.advance(p))
+        finally:
+            pass
+        if out != 'ok':
+            err = out
+            break
+        tk = p.next_token
+        syms.append(tk.symbol)
+        if p.symbol_table.get(tk.lookup_name) is not type(tk) and p.symbol_table.get(tk.symbol) is not type(tk):
+            registered = False
+        if tk.symbol == '(end)':
+            break
+    impl = f'{",".join(syms)};err={err};last={p.next_token.symbol}'
+    return line, impl, registered, len(matches)
+
+
+def correspond_lexer(run: Run, sources: list) -> None:
+    lines, impls, cases, regs = [], [], [], []
+    for v, src in sources:
+        if any(0xD800 <= ord(c) < 0xE000 for c in src) or ',' in src and False:
+            continue   # lone surrogates are not Lean `Char`s: not representable on the model side
+        line, impl, reg, nm = lexer_case(v, src)
+        lines.append(line)
+        impls.append(impl)
+        regs.append(reg)
+        cases.append({'kind': 'lexer', 'v': v, 's': src[:300] + ('…' if len(src) > 300 else ''), 'matches': nm})
+    answers = run.driver('C03', lines)
+    st = run.stats
+    for case, impl, reg, ans in zip(cases, impls, regs, answers):
+        if not ans.startswith('model='):
+            run.disagree(Disagreement(case, 'driver:' + ans, what='protocol'))
+            continue
+        body, pat = ans.rsplit(' pat=', 1)
+        model, spec = body[len('model='):].split(' spec=')
+        st.case(case, nontrivial=case['matches'] > 1)
+        st.count('lexer:sources')
+        st.count('lexer:matches', case['matches'])
+        err = impl.split(';err=')[1].split(';')[0]
+        st.count('lexer:outcome:' + ('end-of-source' if err == '-' else err))
+        for sym in impl.split(';err=')[0].split(','):
+            if sym.startswith('('):
+                st.count('lexer:special:' + sym)
+        impl_class = 'ok' if (reg and (err == '-' or (err.startswith('ERR:') and not err.startswith('ERR:OTHER')
+                                                      and not err.startswith('ERR:NOCODE')))) else 'bad'
+        if pat != '1':
+            run.disagree(Disagreement(case, 'match-not-from-5-alternative-pattern', None, None,
+                                      what='tokenizer-shape'))
+        if impl_class != 'ok' or spec != 'ok':
+            run.disagree(Disagreement(case, impl if impl_class != 'ok' else 'ok', model, 'ok' if spec == 'ok' else model,
+                                      what='lexer-escape', site='Parser.advance'))
+        elif impl != model:
+            run.disagree(Disagreement(case, impl, model, what='lexer-tokens', site='Parser.advance'))
+
+
+# --------------------------------------------------------------------------------------
+# (t) taxonomy: xpath_error() vs model
+# --------------------------------------------------------------------------------------
+XQT = 'http://www.w3.org/2005/xqt-errors'
+NS_VARIANTS = [None, {}, {'err': XQT}, {'e': XQT}, {'': XQT}, {'err': 'http://other'},
+               {'err': 'http://other', 'z': XQT}, {'a': 'http://a', 'err': XQT}]
+
+
+def taxonomy_cases(rng, n: int):
+    import elementpath.exceptions as exc_mod
+    codes = list(exc_mod.XPATH_ERROR_CODES)
+    out = []
+    for c in codes:
+        out.append((None, 's', c))
+        out.append((rng.choice(NS_VARIANTS), 's', rng.choice(['err:', 'e:', 'z:', '', '{%s}' % XQT]) + c))
+    junk = ['', ':', 'err:', 'XPST9999', 'foo:XPST0003', 'err:err:XPST0003', '{bad}XPST0003', '{a}b}c', '{', '}',
+            '{%s}' % XQT, '{%s}NOPE0000' % XQT, 'err:NOPE0000', 'e:XPST0003', ':XPST0003', 'xpst0003', 'XPST0003 ',
+            'err:XPST0003:', '{}XPST0003', 'Q{%s}XPST0003' % XQT]
+    for j in junk:
+        for ns in NS_VARIANTS:
+            out.append((ns, 's', j))
+    for _ in range(n):
+        c = rng.choice(codes)
+        k = rng.random()
+        if k < 0.3:
+            c = c[:rng.randrange(len(c))] + rng.choice('XxA0:{}e ') + c[rng.randrange(len(c)):]
+        elif k < 0.5:
+            c = rng.choice(['err:', 'e:', 'z:', 'a:', ':']) + c
+        elif k < 0.6:
+            c = '{' + rng.choice([XQT, 'http://x', '']) + '}' + c
+        out.append((rng.choice(NS_VARIANTS), 's', c))
+    for uri in (XQT, 'http://x', ''):
+        for qn in ('err:XPST0003', 'XPST0003', 'p:custom', 'x', 'err:NOPE0000', 'FOER0000'):
+            out.append((rng.choice(NS_VARIANTS), 'q', (uri, qn)))
+    return out
+
+
+def correspond_taxonomy(run: Run, n: int) -> None:
+    from elementpath import ElementPathError
+    from elementpath.exceptions import xpath_error
+    from elementpath.datatypes import QName
+    lines, impls, cases = [], [], []
+    for ns, kind, arg in taxonomy_cases(run.rng, n):
+        nstxt = ';'.join(f'{enc(k)}~{enc(u)}' for k, u in (ns or {}).items())
+        if kind == 's':
+            if any(0xD800 <= ord(c) < 0xE000 for c in arg):
+                continue
+            line = f'E ns={nstxt} k=s code={enc(arg)}'
+            call = (lambda a=arg, n_=ns: xpath_error(a, None, None, n_))
+        else:
+            uri, qn = arg
+            pfx, _, local = qn.rpartition(':')
+            line = f'E ns={nstxt} k=q uri={enc(uri)} p={enc(pfx)} l={enc(local)}'
+            if not uri and pfx:
+                continue    # QName('', 'p:x') is rejected by the QName constructor itself
+            call = (lambda u=uri, q=qn, n_=ns: xpath_error(QName(u, q), None, None, n_))
+        try:
+            e = call()
+            raised = 0
+        except BaseException as ex:   # noqa
+            e, raised = ex, 1
+        if isinstance(e, ElementPathError):
+            impl = f'{type(e).__name__},{enc(e.code or "")},{raised}'
+            ok = bool(e.code)
+        else:
+            impl = f'OTHER:{type(e).__name__},_,{raised}'
+            ok = False
+        lines.append(line)
+        impls.append((impl, ok))
+        cases.append({'kind': 'xpath_error', 'namespaces': ns, 'arg': arg})
+    answers = run.driver('C03', lines)
+    st = run.stats
+    for case, (impl, ok), ans in zip(cases, impls, answers):
+        if not ans.startswith('model='):
+            run.disagree(Disagreement(case, 'driver:' + ans, what='protocol'))
+            continue
+        model, spec = ans[len('model='):].split(' spec=')
+        st.case(case)
+        st.count('xpath_error:calls')
+        st.count('xpath_error:class:' + impl.split(',')[0])
+        if not ok or spec != 'ok':
+            run.disagree(Disagreement(case, impl, model, 'ElementPathError-with-code' if spec == 'ok' else model,
+                                      what='taxonomy', site='exceptions.xpath_error'))
+        elif impl != model:
+            run.disagree(Disagreement(case, impl, model, what='xpath_error-model', site='exceptions.xpath_error'))
+
+
+# --------------------------------------------------------------------------------------
+# (c) exploration stream: malformed / ill-typed inputs, oracle = coded ElementPathError or value
+# --------------------------------------------------------------------------------------
+def gen_explore_cases(rng, n: int) -> list[dict]:
+    ft = {v: G.function_table(v, parser_class(v)) for v in VERSIONS}
+    tk = {v: new_parser(v).tokenizer for v in VERSIONS}
+    syms = {v: [k for k in parser_class(v).symbol_table if not k.startswith('(') or k == '(:'] for v in VERSIONS}
+    cases = []
+    for s in G.KNOWN_NASTIES:
+        for v in VERSIONS:
+            cases.append({'v': v, 's': s, 'c': 'doc', 'g': 'corpus'})
+    for _ in range(n):
+        v = rng.choice(VERSIONS)
+        g = G.Gen(rng, v, ft[v])
+        r = rng.random()
+        if r < 0.30:
+            s, kind = G.illtyped_call(g), 'illtyped-call'
+        elif r < 0.40:
+            s, kind = G.illtyped_op(g), 'illtyped-op'
+        elif r < 0.58:
+            s, kind = g.expr(rng.randint(1, 3)), 'grammar'
+        elif r < 0.90:
+            s = g.expr(rng.randint(1, 3)) if rng.random() < 0.7 else G.illtyped_call(g)
+            kinds = []
+            for _k in range(rng.choice([1, 1, 2])):
+                s, k = G.mutate(rng, tk[v], syms[v], s)
+                kinds.append(k)
+            kind = 'mutation:' + kinds[0]
+        else:
+            s, kind = G.random_string(rng), 'random-unicode'
+        cases.append({'v': v, 's': s, 'c': rng.choice(G.CTX_KINDS), 'g': kind})
+    return cases
+
+
+_TOKENIZERS: dict = {}
+
+
+def source_symbols(v: str, src: str) -> tuple[list[str], int]:
+    if v not in _TOKENIZERS:
+        _TOKENIZERS[v] = new_parser(v).tokenizer
+    syms, n = [], 0
+    for m in _TOKENIZERS[v].finditer(src):
+        lit, sym, name, unk = m.groups()
+        if m.group().isspace():
+            continue
+        n += 1
+        if sym is not None:
+            syms.append(sym.strip())
+        elif name is not None:
+            syms.append(name)
+    return sorted(set(syms)), n
+
+
+def trigger_line(v: str, src: str, out: str, site: str) -> str:
+    syms, n = source_symbols(v, src)
+    syms = [s for s in syms if not any(0xD800 <= ord(c) < 0xE000 for c in s)]
+    cls = out.split(':')[-1]
+    return f'X cls={cls} site={site or "-"} n={n} syms={",".join(enc(s) for s in syms)}'
+
+
+def judge_explored(run: Run, results: list[dict], count: bool = True) -> list[Disagreement]:
+    """turn worker results into statistics and disagreements (tagged by the Lean trigger predicate)"""
+    st = run.stats
+    pending = []   # (case, out, site)
+    for r in results:
+        case = {'kind': 'explore', 'v': r['v'], 's': r['s'], 'c': r['c']}
+        if count:
+            st.case(case, nontrivial=len(r['steps']) > 1)
+            st.count('explore:gen:' + r.get('g', '?').split(':')[0])
+            st.count('explore:version:' + r['v'])
+        seen = set()
+        first_eval = None
+        for name, out, site in r['steps']:
+            cls = 'value' if out == 'ok' else ('coded-error' if not out.startswith(('ERR:OTHER', 'ERR:NOCODE')) else out)
+            if count:
+                st.count(f'explore:{name}:{cls if cls in ("value", "coded-error") else "ESCAPE"}')
+                if cls == 'coded-error':
+                    st.count('explore:code:' + out[4:])
+            if name == 'evaluate':
+                first_eval = out
+            if name == 'evaluate-again' and first_eval is not None and out != first_eval:
+                pending.append((dict(case, step='evaluate-twice'), 'second:' + out, 'first:' + first_eval))
+            if cls not in ('value', 'coded-error') and (out, site) not in seen:
+                seen.add((out, site))
+                pending.append((dict(case, step=name), out, site))
+    lines = [trigger_line(c['v'], c['s'], out, site) for c, out, site in pending if not out.startswith('second:')]
+    answers = iter(run.driver('C03', lines)) if lines else iter(())
+    ds = []
+    for c, out, site in pending:
+        if out.startswith('second:'):
+            ds.append(Disagreement(c, out, None, site.replace('first:', 'second:'), what='evaluate-not-repeatable',
+                                   site='XPathToken.evaluate'))
+            continue
+        ans = next(answers)
+        tag = ans[len('inK='):] if ans.startswith('inK=') else '-'
+        if count:
+            st.count('explore:escape:' + out.split(':')[-1] + ('' if tag == '-' else f'[{tag}]'))
+        ds.append(Disagreement(c, out, None, SPEC_OK, what='escape', site=site, tags=[] if tag == '-' else [tag]))
+    return ds
+
+
+def explore(run: Run, n: int) -> list[dict]:
+    cases = gen_explore_cases(run.rng, n)
+    t0 = time.time()
+    results = explore_many(cases, nworkers=int(os.environ.get('C03_WORKERS', '4')))
+    for c, r in zip(cases, results):
+        r['g'] = c.get('g', '?')
+    run.log(f'explored {len(cases)} inputs in {time.time() - t0:.1f}s')
+    for d in judge_explored(run, results):
+        run.disagree(d)
+    return cases
+
+
+# --------------------------------------------------------------------------------------
+# failing-input search and shrinking
+# --------------------------------------------------------------------------------------
+def search(run: Run):
+    """something broke (a theorem over the generated tables, the build, or a tie): look for a concrete
+    failing input with a wider net — exhaustive reuse pairs, every registered symbol through the
+    lexer, every error code, and a second exploration stream"""
+    sub = Run(PROP, run.tier, run.seed + 7919)
+    sub.rng.seed(f'search/{run.seed}')
+    # (a) every failing source followed by every succeeding source, per version, on one instance
+    bad = ['1 +', '(', "'x", '(: c', '1 => (', "'a' => concat(", 'a[', '$', 'Q{', 'map{', '1 + "a"', 'xs:int("x")',
+           'abs(', 'for $x in', 'if (1) then', '1 cast as', 'a/', None, 5]
+    good = ['1', 'abs(-1)', 'a/b[1]', "xs:int('1')", 'count((1, 2))', '1 + 1', "concat('a', 'b')", '//b', '$s']
+    lines, impls, cases = [], [], []
+    for v in VERSIONS:
+        for b in bad:
+            for g in good:
+                calls = [g, b, g, b, b, g]
+                line, impl = history_line(v, calls)
+                lines.append(line)
+                impls.append(impl)
+                cases.append({'kind': 'history', 'v': v, 'calls': [c if isinstance(c, str) else '<non-str>' for c in calls]})
+    for case, impl, ans in zip(cases, impls, sub.driver('C03', lines)):
+        model, spec = ans[len('model='):].split(' spec=')
+        if impl != spec:
+            k = next((i for i, (a, b) in enumerate(zip(impl.split('|'), spec.split('|'))) if a != b), 0)
+            sub.disagree(Disagreement(dict(case, first_difference_at_call=k), impl.split('|')[k], None,
+                                      spec.split('|')[k], what='parser-reuse', site='Parser.parse'))
+    # (b) every registered symbol and every literal form through the lexer
+    srcs = []
+    for v in VERSIONS:
+        keys = [k for k in parser_class(v).symbol_table if not k.startswith('(')]
+        srcs.append((v, ' '.join(keys)))
+        srcs += [(v, s) for s in ['1', '1.5', '.5', '1.', '1e3', '1E-3', '.5e+2', "'a'", '"b"', "'it''s'", '1' * 4301,
+                                  '1' * 4301 + '.5', '1' * 400 + 'e1', '#', 'é', 'foo(', 'foo', '\t\n ', '',
+                                  '1 2', '$a', 'a:b', '`', '~', '^', '&', '%', '\\']]
+    correspond_lexer(sub, srcs)
+    # (t) every error code
+    correspond_taxonomy(sub, 500)
+    # (c) a second, larger exploration stream
+    for d in judge_explored(sub, explore_many(gen_explore_cases(sub.rng, run.scale(15000, 60000)),
+                                              nworkers=int(os.environ.get('C03_WORKERS', '4'))), count=False):
+        sub.disagree(d)
+    run.notes.append(f'search: {len(lines)} reuse histories, {len(srcs)} lexer sources, all error codes, '
+                     f'second exploration stream; {len(sub.disagreements)} disagreements')
+    return sub.disagreements
+
+
+def shrink(d: Disagreement) -> Disagreement:
+    case = d.case
+    if not isinstance(case, dict):
+        return d
+    if case.get('kind') == 'explore':
+        v, src, kind, step = case['v'], case['s'], case['c'], case.get('step')
+        tk = new_parser(v).tokenizer
+
+        def fails(s: str) -> bool:
+            r = explore_many([{'v': v, 's': s, 'c': kind}], nworkers=1)[0]
+            return any(out == d.impl and site == d.site for _n, out, site in r['steps'])
+
+        toks = [m.group() for m in tk.finditer(src)]
+        changed = True
+        budget = 150
+        while changed and budget > 0:
+            changed = False
+            for i in range(len(toks)):
+                budget -= 1
+                if budget <= 0:
+                    break
+                cand = toks[:i] + toks[i + 1:]
+                if cand and fails(''.join(cand)):
+                    toks = cand
+                    changed = True
+                    break
+        small = ''.join(toks)
+        if small != src and fails(small):
+            return Disagreement(dict(case, s=small, original=src[:500]), d.impl, d.model, d.spec, d.what, d.site, d.tags)
+    if case.get('kind') == 'history':
+        return d   # reported with the index of the first differing call; calls before it are the cause
+    return d
+
+
+# --------------------------------------------------------------------------------------
+def check_trigger_table(run: Run) -> None:
+    """findings/C03.json and the Lean trigger table must describe the same rows"""
+    f = VERIF / 'findings' / 'C03.json'
+    if not f.exists():
+        return
+    data = json.loads(f.read_text())
+    want = set()
+    for fd in data.get('findings', []):
+        for row in fd.get('sites', []):
+            want.add((fd['id'], row['class'], row['site'], ','.join(row.get('any_symbol', [])), str(row.get('min_tokens', 0))))
+    dump = run.driver('C03', ['T'])[0]
+    have = {tuple(r.split(';')) for r in dump.split('|') if r}
+    if want != have:
+        raise RuntimeError('findings/C03.json and EPV.C03Esc.rows differ: only-json=%r only-lean=%r'
+                           % (sorted(want - have)[:5], sorted(have - want)[:5]))
+
+
+def replay(run: Run) -> int:
+    data = json.loads(Path(run.replay).read_text())
+    fi = data.get('failing_input')
+    if not fi:
+        print('replay file has no failing input (broken obligations: %s)' % data.get('broken'))
+        return 1
+    case = fi['case']
+    print('replaying', json.dumps(case)[:400])
+    if case.get('kind') == 'explore':
+        r = explore_many([{'v': case['v'], 's': case['s'], 'c': case['c']}], nworkers=1)[0]
+        print('steps:', r['steps'])
+        bad = [s for s in r['steps'] if s[1].startswith(('ERR:OTHER', 'ERR:NOCODE'))]
+        return 1 if bad else 0
+    if case.get('kind') == 'history':
+        calls = [c if not c.startswith('<non-str') else None for c in case['calls']]
+        line, impl = history_line(case['v'], calls)
+        ans = run.driver('C03', [line])[0]
+        spec = ans.split(' spec=')[1]
+        for a, b in zip(impl.split('|'), spec.split('|')):
+            print(('   ' if a == b else '!! ') + a + ('' if a == b else '   fresh: ' + b))
+        return 0 if impl == spec else 1
+    if case.get('kind') == 'lexer':
+        line, impl, reg, _ = lexer_case(case['v'], case['s'])
+        print(impl, run.driver('C03', [line])[0])
+        return 1
+    print('unsupported replay kind')
+    return 2
+
+
+def body(run: Run) -> int:
+    if getattr(run, 'replay', None):
+        return replay(run)
+    import warnings
+    warnings.simplefilter('ignore')
+    info = translate_tables(run)
+    run.stats.extra['tables'] = {k: v for k, v in info.items() if k not in ('parse_shape', 'xp1_parse_shape')}
+    run.trusted_base += [
+        'translator harness/c03.py::translate_tables (symbol tables, exception class graph, XPATH_ERROR_CODES, '
+        'ast of Parser.parse / XPath1Parser.parse, ast scan of cursor-attribute assignments, printed as Lean literals)',
+        'the `re` engine (which matches the tokenizer pattern produces for a source is observed, not modelled)',
+        'float()/Decimal()/int() of CPython: abstract oracles in the theorems, CPython 3.12 behaviour in the driver']
+    run.assumptions += [
+        'a parser instance has no mutable per-instance state read by parsing other than the six modelled '
+        'attributes (checked by the generated table of attribute writers, theorem cursor_written_at_parse_time_only)',
+        'PARTIAL: "no other exception type escapes from any parse/evaluate call" is NOT proved; it is explored by '
+        'the malformed/ill-typed input stream (counts under explore:* in the histogram); proved are parser reuse, '
+        'lexer totality and the closure of the error taxonomy',
+        'class-level state (symbol_table, tokenizer) is shared by all instances and not part of the reuse statement']
+    run.prove(['EPV.Props.C03', 'EPV.Props.C03Tables'], ['EPV.Spec.EscapeTriggers'])
+    for code in info.get('codes_not_closed', []):
+        run.disagree(Disagreement({'kind': 'error-code', 'code': code}, 'class-not-ElementPathError', None,
+                                  'subclass-of-ElementPathError', what='taxonomy', site='exceptions.XPATH_ERROR_CODES'))
+    try:
+        check_trigger_table(run)
+        correspond_histories(run, run.scale(250, 2500))
+        cases = explore(run, run.scale(18000, 150000))
+        lex_sources = [(c['v'], c['s']) for c in cases[::run.scale(6, 12)]]
+        lex_sources += [(v, ' '.join(k for k in parser_class(v).symbol_table if not k.startswith('('))) for v in VERSIONS]
+        correspond_lexer(run, lex_sources)
+        correspond_taxonomy(run, run.scale(600, 6000))
+    except DriverError as e:
+        run.broken.append('driver:C03 ' + str(e)[:300])
+    run.stats.rule = (
+        'histories: 2..12 interleaved failing/succeeding parse() calls (grammar-derived, one-token mutations, known '
+        'nasties, failing `=>` operands, non-string sources) on ONE parser instance per version, after every call the '
+        'outcome (tree / code+message) and the six cursor attributes are compared with a fresh instance and with the '
+        'Lean cursor model; evaluate after failed evaluate on the same token. lexer: every tokenizer match of sampled '
+        'sources through the real base Parser.advance vs the Lean model. xpath_error: all codes, prefixed/braced/'
+        'mutated, QNames, 8 namespace maps. explore: grammar-derived, mutated, ill-typed, random-Unicode expressions x 4 '
+        'parser versions x 6 contexts, each parsed and evaluated 5 ways under a 5 s watchdog. distinct = distinct '
+        'request cases; non-trivial = history with both failing and succeeding calls / source with >1 token / parsed '
+        'expression')
+    return run.finish('proof', shrink=shrink, search=search)
+
+
+if __name__ == '__main__':
+    cli(PROP, body, translate=translate_tables)
